@@ -30,6 +30,8 @@ def _walk_own(fnode):
     while todo:
         n = todo.pop()
         yield n
+        if isinstance(n, (ast.FunctionDef, ast.AsyncFunctionDef, ast.Lambda, ast.ClassDef)):
+            continue
         for c in ast.iter_child_nodes(n):
             if isinstance(c, (ast.FunctionDef, ast.AsyncFunctionDef, ast.Lambda, ast.ClassDef)):
                 continue
@@ -50,9 +52,11 @@ def join_slist(interp, sep, xs):
             target = fr
             break
     if target is None:
-        raise Unsupported('str.join over a symbolic-length sequence outside a function')
+        return NotImplemented
     k = target.join_counter
     target.join_counter = k + 1
+    if (target.info.filename, target.info.qualname, 'join#%d' % k) not in interp.reg.loops_by_key:
+        return NotImplemented        # no call-site invariant: the caller falls back to the algebraic model
     saved = target.model_site
     target.model_site = 'join#%d' % k
     try:
@@ -117,7 +121,7 @@ def _param_names(pred):
 
 
 def _env_of(interp, frame, extra):
-    env = {}
+    env = {'ghost': interp.st.ghost, 'trace': interp.st.trace}     # ghost state / events (unless shadowed by a local)
     if interp.collect is not None:
         env['yielded'] = interp.collect[1]
     if _is_pymodel(frame.info.filename):
@@ -132,6 +136,9 @@ def _env_of(interp, frame, extra):
         env.update(d)
     env.update(frame.locals)
     env.update(interp.reg.ghost_env)
+    # ghost state / ghost event trace of the path (as in contract clauses); a local of that name wins
+    env.setdefault('ghost', interp.st.ghost)
+    env.setdefault('trace', interp.st.trace)
     env.update(extra)
     return env
 
